@@ -1006,6 +1006,7 @@ def check_label_case(chk, ctx, case):
                 if bool(r.folded) != case['folded']:
                     chk.fail('%s:labels:folded' % key0, '%s: folded flag %r, the model gives %r' % (tag, r.folded, case['folded']), small_); return
                 got_mask = np.ma.getmaskarray(r).ravel()
+                if callno == 1 and r.shape == shape: k_mask(chk, ctx, case, masks, got_mask)
                 if r.shape != shape or not np.array_equal(got_mask, exp_mask):
                     extra = np.nonzero(got_mask & ~exp_mask)[0].tolist() if r.shape == shape else None
                     lost = np.nonzero(~got_mask & exp_mask)[0].tolist() if r.shape == shape else None
@@ -1013,7 +1014,6 @@ def check_label_case(chk, ctx, case):
                              '(of which corners %r), entries that lost their mask %r; masks of the model results per grid %r'
                              % (tag, extra, [e for e in (extra or []) if e in (0, n - 1)], lost, [np.nonzero(m)[0].tolist() for m in masks]), small_); return
                 data = np.asarray(np.ma.getdata(r), dtype=float).ravel()
-                if callno == 1: k_mask(chk, ctx, case, masks, got_mask)
             else:
                 if isinstance(r, np.ma.MaskedArray) or np.asarray(r).shape != shape:
                     chk.fail('%s:labels:type' % key0, '%s: result is %s of shape %r' % (tag, type(r).__name__, np.asarray(r).shape), small_); return
